@@ -503,6 +503,9 @@ func (engine) Body(r *simdrv.Run) {
 	r.Res.Config["retry"] = fmt.Sprintf("%+v", rc)
 	r.Res.Config["exporter_timeout"] = expTimeout.String()
 	r.Res.Config["ctx_timeout"] = ctxTimeout.String()
+	// instead of a deadline the caller may cancel its context at that instant (another task does it)
+	ctxByCancel := ctxTimeout > 0 && r.Cfg(3) == 0
+	r.Res.Config["ctx_cancelled_by_caller"] = ctxByCancel
 	r.Res.Config["shutdown_at"] = shutdownAt.String()
 	sdTimeout := []time.Duration{0, 0, 50 * time.Millisecond, time.Second, -1}[r.Cfg(5)] // 0: Shutdown(context.Background()), -1: a context that is already cancelled
 	r.Res.Config["shutdown_ctx_timeout"] = sdTimeout.String()
@@ -633,7 +636,18 @@ func (engine) Body(r *simdrv.Run) {
 		if w.isGRPC && expTimeout > 0 {
 			c.deadline = expTimeout
 		}
-		if ctxTimeout > 0 {
+		if ctxByCancel {
+			ctx, cancel = context.WithCancel(ctx)
+			cf := cancel
+			simrt.Go(simdrv.PtStub, func() {
+				simrt.Sleep(ctxTimeout, simdrv.PtSleep)
+				cf()
+			})
+			r.Fault("caller-cancels-context")
+			if ctxTimeout < c.deadline {
+				c.deadline = ctxTimeout
+			}
+		} else if ctxTimeout > 0 {
 			ctx, cancel = context.WithTimeout(ctx, ctxTimeout)
 			if ctxTimeout < c.deadline {
 				c.deadline = ctxTimeout
